@@ -19,7 +19,7 @@ RULE = (
     "Generated block programs: an underlying iterator (async generator / class with aclose / plain-awaitable "
     "class / class with asend+athrow / a list) of 0-8 items is opened with scoped_iter, nested up to depth 3 "
     "(inner scopes over the outer handle, generated entry/exit positions); inside, up to 20 operations from "
-    "{next on the handle of any open level, aclose that handle, hand it to one of 26 tools taking j items and "
+    "{next / asend on the handle of any open level, next / asend on a handle whose scope ended, aclose that handle, hand it to one of 26 tools taking j items and "
     "closing or abandoning the tool, next on a handle whose scope already ended}. Exit mode: fall-through, or an "
     "exception raised at a generated operation; additionally EVERY suspension point of the fall-through run is "
     "cancelled in a separate run (sources suspend). Model: one shared synchronous iterator with the stdlib tools. "
@@ -51,6 +51,8 @@ def programs(draw, tier):
         st.tuples(st.just("enter")),
         st.tuples(st.just("exit")),
         st.tuples(st.just("next-dead")),
+        st.tuples(st.just("asend-dead")),
+        st.tuples(st.just("asend"), st.integers(0, 2)),
     )
     ops = [list(o) for o in draw(st.lists(op, max_size=20))]
     raise_at = draw(st.one_of(st.none(), st.none(), st.integers(0, 20)))
@@ -91,9 +93,14 @@ def run_program(case, cancel_at=None):
             return src.close_calls > 0 or (underlying.ag_frame is None and not src.exhausted)
         return src.close_calls > 0
 
-    async def take(h, live):
+    async def take(h, live, via="anext"):
         try:
-            value = await h.__anext__()
+            if via == "asend":
+                if not hasattr(h, "asend"):
+                    return
+                value = await h.asend(None)
+            else:
+                value = await h.__anext__()
         except StopAsyncIteration:
             if live:
                 expected = next(model, _END)
@@ -164,10 +171,15 @@ def run_program(case, cancel_at=None):
                 elif name == "next-dead":
                     if dead:
                         await take(dead[-1], live=False)
+                elif name == "asend-dead":
+                    if dead:
+                        await take(dead[-1], live=False, via="asend")
                 else:
                     target = stack[op[1] % len(stack)]
                     if name == "next":
                         await take(target, live=True)
+                    elif name == "asend":
+                        await take(target, live=True, via="asend")
                     elif name == "close":
                         await target.aclose()
                     elif name == "tool":
